@@ -96,6 +96,14 @@ fn main() {
         };
         if let Some(o) = v.as_object_mut() {
             o.insert("_us".to_string(), json!(us));
+            // peak resident set of this process so far (kB): lets the driver bound the memory a single case needs
+            if let Ok(st) = std::fs::read_to_string("/proc/self/status") {
+                if let Some(l) = st.lines().find(|l| l.starts_with("VmHWM:")) {
+                    if let Some(n) = l.split_whitespace().nth(1).and_then(|x| x.parse::<u64>().ok()) {
+                        o.insert("_hwm_kb".to_string(), json!(n));
+                    }
+                }
+            }
         }
         writeln!(out, "{}", v).unwrap();
         out.flush().unwrap();
